@@ -294,6 +294,28 @@ def run_context(ctx, repo, tier, fmt):
         from ..voro import find_terms
         ratio = [t for t in find_terms(Mdata, lambda t_: t_.op == "div") if len(t.args) == 2 and
                  all(find_terms(a, lambda u: u.op == "exp") or (isinstance(a, Term) and a.op == "exp") for a in t.args)] if isinstance(Mdata, (Term, Grid)) else []
+        if not ratio and isinstance(Mdata, (Term, Grid)):
+            # the same quotient written inside one entry expression:  exp(-E[col]/2RT) * exp(-E[row]/2RT)^-1  (possibly wrapped in a cap)
+            from ..alg import atom_str as _astr
+
+            def _grids(v, seen, out):
+                if id(v) in seen:
+                    return out
+                seen.add(id(v))
+                if isinstance(v, Grid):
+                    out.append(v)
+                    _grids(v.elem, seen, out)
+                elif isinstance(v, Term):
+                    for a_ in list(v.args) + list(v.kw.values()):
+                        _grids(a_, seen, out)
+                return out
+            for g_ in _grids(Mdata, set(), []):
+                if not isinstance(g_.elem, Num):
+                    continue
+                for mono in g_.elem.p.terms:
+                    ex = [(a_, e_) for a_, e_ in mono if a_[0] == "app" and a_[1] == "exp" and "at(E" in _astr(a_)]
+                    if any(e_ < 0 for _, e_ in ex) and any(e_ > 0 for _, e_ in ex):
+                        ratio = [g_]
         if ratio:
             ctx.violate("KERNEL", "C01.O2.ratio", "the Boltzmann factor is formed as a QUOTIENT of per-cell exponentials instead of the exponential "
                         "of the (capped) energy difference: for energies far from the reference the single exponentials under/overflow "
